@@ -561,7 +561,7 @@ class KernelRIM(LinearModel):
 
     def fit(self, X, y=None):
         # We start by storing the input data for later kernel computations
-        check_array(X)
+        X = check_array(X)
         self.input_data_ = X
 
         training_kernel = self._compute_kernel(X)
